@@ -559,6 +559,7 @@ func c20R6(e *Engine) {
 				continue
 			}
 			clientSet, tableSetInLoop := false, false
+			conditional := ""
 			instrs(fn, func(in ssa.Instruction) {
 				st, ok := in.(*ssa.Store)
 				if !ok {
@@ -580,9 +581,73 @@ func c20R6(e *Engine) {
 							}
 						}
 					}
+					// … of EVERY table, whatever the client's other settings: the store is governed only by the loop's
+					// progress and by guards whose other side panics
+					for b := st.Block(); b != nil && len(b.Preds) == 1; b = b.Preds[0] {
+						p := b.Preds[0]
+						ifi, isIf := p.Instrs[len(p.Instrs)-1].(*ssa.If)
+						if !isIf || isProgressCond(ifi.Cond) {
+							continue
+						}
+						other := p.Succs[0]
+						if other == b {
+							other = p.Succs[1]
+						}
+						if _, panics := other.Instrs[len(other.Instrs)-1].(*ssa.Panic); !panics {
+							conditional = "the update of the existing tables is skipped when " + ifi.Cond.String() + " decides so (" + e.ipos(ifi) + ")"
+						}
+					}
+					// the loop header itself may be conditional
+					for _, body := range naturalLoops(fn) {
+						if !body[st.Block()] {
+							continue
+						}
+						for hb := range body {
+							for _, pr := range hb.Preds {
+								if body[pr] {
+									continue
+								}
+								for b := pr; b != nil; {
+									if len(b.Preds) != 1 {
+										break
+									}
+									p := b.Preds[0]
+									if ifi, isIf := p.Instrs[len(p.Instrs)-1].(*ssa.If); isIf {
+										other := p.Succs[0]
+										if other == b {
+											other = p.Succs[1]
+										}
+										if _, panics := other.Instrs[len(other.Instrs)-1].(*ssa.Panic); !panics && !reachesBlock(other, hb) {
+											conditional = "the loop over the existing tables is skipped on a branch at " + e.ipos(ifi)
+										}
+									}
+									b = p
+								}
+							}
+						}
+					}
 				}
 			})
-			e.check(clientSet && tableSetInLoop, "R6", role+".Client."+name+":propagates", e.pos(fn.Pos()), "updates Client.%s (%v) and Table.%s of every existing table (%v)", field[0], clientSet, field[1], tableSetInLoop)
+			e.check(clientSet && tableSetInLoop && conditional == "", "R6", role+".Client."+name+":propagates", e.pos(fn.Pos()), "updates Client.%s (%v) and Table.%s of every existing table (%v) unconditionally %s", field[0], clientSet, field[1], tableSetInLoop, conditional)
 		}
 	}
+}
+
+// reachesBlock: to is reachable from from.
+func reachesBlock(from, to *ssa.BasicBlock) bool {
+	seen := map[*ssa.BasicBlock]bool{}
+	work := []*ssa.BasicBlock{from}
+	for len(work) > 0 {
+		b := work[len(work)-1]
+		work = work[:len(work)-1]
+		if b == to {
+			return true
+		}
+		if seen[b] {
+			continue
+		}
+		seen[b] = true
+		work = append(work, b.Succs...)
+	}
+	return false
 }
